@@ -15,7 +15,7 @@ PROPERTY = 'C12'
 LEAN_MODULES = ['YatimlModel.Props.C12']
 THEOREMS = ['YatimlModel.C12.' + t for t in [
     'dump_matches_dumps', 'dump_json_matches_dumps_json', 'load_sites_agree', 'setups_agree',
-    'sites_exist', 'C12_sinks_equal', 'C12_sources_equal']]
+    'sites_exist', 'skeleton', 'C12_sinks_equal', 'C12_sources_equal']]
 RULE = ('generated (type, document) cases loaded from a str, a pathlib.Path, an open text stream and an '
         'open binary stream: equal results or the same error class; generated (class model, value, '
         'indent, ensure_ascii) cases dumped with dump_function / dump_json_function to a file name, a Path '
@@ -46,8 +46,11 @@ def explore(ctx):
         # ---- sources ----
         for c in LC.gen_cases(ctx, ctx.budget(250, 5000), mutate_p=0.3):
             text = c.text
-            if rng.random() < 0.3:
+            r = rng.random()
+            if r < 0.3:
                 text = text + ' # é ü 日本\n'
+            elif r < 0.4:
+                text = rng.choice(['', '', '\n', '# only a comment\n', '---\n', '   \n'])
             load = c.real.load
             base = outcome(lambda: load(text), c.model)
             p = pathlib.Path(tmp) / 'doc.yaml'
@@ -110,6 +113,12 @@ def explore(ctx):
                 try:
                     do(fn)
                     got['file name'] = open(fn, encoding='utf-8').read()
+                    do(fn)
+                    got['file name, second dump to it'] = open(fn, encoding='utf-8').read()
+                    with open(fn, 'w', encoding='utf-8') as f:
+                        f.write('previous content: ' + 'x' * rng.randint(0, 3 * len(want) + 5) + '\n')
+                    do(pathlib.Path(fn))
+                    got['Path of an existing file'] = open(fn, encoding='utf-8').read()
                     os.remove(fn)
                     do(pathlib.Path(fn))
                     got['Path'] = open(fn, encoding='utf-8').read()
